@@ -34,3 +34,86 @@ RE_UNWINDSET = {'re_match.0': 10, 're_match.1': 10, 're_match.2': 10, 're_match.
 
 SP_RELEASE = '_ZNSt16_Sp_counted_baseILN9__gnu_cxx12_Lock_policyE2EE10_M_releaseEv'
 SP_LEAK_MODEL = 'sp_release_leak.c'
+
+# ----------------------------------------------------------------------------- re2smt engine (C14 Q1, C19 Q1)
+def _cls(z3, c, ranges, singles=()):
+    ts = [z3.And(z3.UGE(c, z3.BitVecVal(a, 8)), z3.ULE(c, z3.BitVecVal(b, 8))) for a, b in ranges]
+    ts += [c == z3.BitVecVal(x, 8) for x in singles]
+    return z3.Or(ts)
+
+def spec_ts_key(z3, s, n, L):
+    """W3C tracestate key as documented in trace_state.h: simple-key | tenant@system, first char lcalpha/DIGIT"""
+    first = lambda c: _cls(z3, c, [(97, 122), (48, 57)])
+    keych = lambda c: _cls(z3, c, [(97, 122), (48, 57)], (ord('_'), ord('-'), ord('*'), ord('/')))
+    N = lambda v: z3.BitVecVal(v, 16)
+    pre = [z3.BoolVal(True), z3.BoolVal(True)]            # pre[i] = all j in 1..i-1 are keych
+    for i in range(2, L + 1): pre.append(z3.And(pre[i-1], keych(s[i-1])))
+    simple = z3.And(z3.UGE(n, N(1)), z3.ULE(n, N(256)), first(s[0]),
+                    z3.Or([z3.And(n == N(j), pre[j]) for j in range(1, min(256, L) + 1)]))
+    multi = []
+    for p in range(1, min(241, L - 2) + 1):
+        sys_len_ok = z3.And(z3.UGE(n, N(p + 2)), z3.ULE(n, N(p + 15)))
+        tail = [z3.Or(z3.ULE(n, N(i)), keych(s[i])) for i in range(p + 2, min(p + 15, L))]
+        multi.append(z3.And(s[p] == z3.BitVecVal(64, 8), sys_len_ok, first(s[0]), pre[p], first(s[p+1]), *tail))
+    return z3.Or(simple, z3.Or(multi))
+
+def spec_ts_value(z3, s, n, L):
+    chr_ = lambda c: z3.And(_cls(z3, c, [(0x20, 0x7e)]), c != z3.BitVecVal(ord(','), 8), c != z3.BitVecVal(ord('='), 8))
+    nblk = lambda c: z3.And(chr_(c), c != z3.BitVecVal(0x20, 8))
+    N = lambda v: z3.BitVecVal(v, 16)
+    pre = [z3.BoolVal(True)]
+    for i in range(1, L + 1): pre.append(z3.And(pre[i-1], chr_(s[i-1])))
+    return z3.Or([z3.And(n == N(j), pre[j-1], nblk(s[j-1])) for j in range(1, min(256, L) + 1)])
+
+def spec_instrument_name(z3, s, n, L):
+    alpha = lambda c: _cls(z3, c, [(65, 90), (97, 122)])
+    rest = lambda c: _cls(z3, c, [(65, 90), (97, 122), (48, 57)], (ord('_'), ord('.'), ord('-'), ord('/')))
+    N = lambda v: z3.BitVecVal(v, 16)
+    pre = [z3.BoolVal(True), z3.BoolVal(True)]
+    for i in range(2, L + 1): pre.append(z3.And(pre[i-1], rest(s[i-1])))
+    return z3.And(alpha(s[0]), z3.Or([z3.And(n == N(j), pre[j]) for j in range(1, min(255, L) + 1)]))
+
+def spec_instrument_unit(z3, s, n, L):
+    ok = lambda c: _cls(z3, c, [(1, 127)])
+    N = lambda v: z3.BitVecVal(v, 16)
+    pre = [z3.BoolVal(True)]
+    for i in range(1, L + 1): pre.append(z3.And(pre[i-1], ok(s[i-1])))
+    return z3.Or([z3.And(n == N(j), pre[j]) for j in range(0, min(63, L) + 1)])
+
+REGEX_OBLIGATIONS = {
+    'ts_key': (['reg_key', 'reg_key_multitenant'], 'spec_ts_key', 258),
+    'ts_value': (['reg_value'], 'spec_ts_value', 258),
+    'instrument_name': (['instrument_name'], 'spec_instrument_name', 258),
+    'instrument_unit': (['instrument_unit'], 'spec_instrument_unit', 70),
+}
+
+def regex_engine(which, args, work):
+    """run the re2smt equivalence queries in a python3-vt subprocess (z3 python API lives in that venv)"""
+    import subprocess, json
+    out = []
+    for ob in which:
+        L = REGEX_OBLIGATIONS[ob][2]
+        if args.tier == 'quick' and L > 100: Lq = L
+        p = subprocess.run(['python3-vt', os.path.join(VERIF, 'tools', 're_equiv.py'), ob], stdout=subprocess.PIPE, stderr=subprocess.PIPE, timeout=3000)
+        try:
+            r = json.loads(p.stdout.decode().strip().split('\n')[-1])
+        except Exception:
+            r = {'verdict': 'INCONCLUSIVE', 'detail': (p.stderr.decode() or p.stdout.decode())[-800:], 'sample': {'query': 'regex_equiv_' + ob, 'verdict': 'INCONCLUSIVE'}}
+        out.append(r)
+    return out
+
+def patched_trace_state_limit(limit):
+    """C14-Q4: scratch copy of trace_state.h with kMaxKeyValuePairs scaled (the only text edit of code under test);
+    aborts unless exactly one line matches and the real value is 32"""
+    def gen(workdir):
+        import re
+        src = open(TS_H).read()
+        pat = re.compile(r'(static constexpr int kMaxKeyValuePairs\s*=\s*)(\d+)(;)')
+        ms = pat.findall(src)
+        if len(ms) != 1 or ms[0][1] != '32':
+            raise RuntimeError('kMaxKeyValuePairs: expected exactly one definition with value 32, found %r' % (ms,))
+        d = os.path.join(workdir, 'patched_inc', 'opentelemetry', 'trace')
+        os.makedirs(d, exist_ok=True)
+        open(os.path.join(d, 'trace_state.h'), 'w').write(pat.sub(r'\g<1>%d\g<3>' % limit, src))
+        return [os.path.join(workdir, 'patched_inc')]
+    return gen
